@@ -229,6 +229,11 @@ def c_activity(interp, st, args, kw):
     """activity(isotope, mass, env, exposure, rest_times) -> {product: [A(T_i)]} (units activity[...]); here every
     isotope yields the same single product so that contributions must add"""
     iso, m = args[0].expr, R(interp.resolve(st, args[1]))
+    # which environment / exposure / rest times each per-isotope calculation was given (signature order; None = left to a default)
+    names = ("isotope", "mass", "env", "exposure", "rest_times")
+    given = dict(zip(names, args))
+    given.update(kw)
+    st.ghost.setdefault("activity_calls", []).append({k: given.get(k) for k in ("env", "exposure", "rest_times")})
     return VDict([[PRODUCT, VList([ACTIVITY_OF(iso, m, z3.IntVal(i)) for i in range(2)])]])
 
 
@@ -240,6 +245,10 @@ def _ca_post(st, interp, C, res):
     # decay_time and the table printer read these back: the calculation must record what it was asked for
     st.oblige("post.the sample records the environment, exposure and rest times of this calculation",
               z3.BoolVal(a.get("environment") is C["env"] and a.get("exposure") is C["exposure"] and a.get("rest_times") is C["rest_times"]))
+    calls = st.ghost.get("activity_calls", [])
+    st.oblige("post.every per-isotope calculation is given the environment, exposure and rest times of this calculation",
+              z3.BoolVal(len(calls) > 0 and all(c["env"] is C["env"] and c["exposure"] is C["exposure"] and c["rest_times"] is C["rest_times"]
+                                                for c in calls)))
     act = C["self"].attrs["activity"]
     ok = isinstance(act, VDict) and len(act.entries) == 1 and act.entries[0][0] is PRODUCT
     st.oblige("post.one accumulated entry for the common product", z3.BoolVal(ok))
